@@ -77,7 +77,7 @@ func C07(r *drv.Run) {
 		nReaderOps = 600000
 		rounds = 4
 	}
-	r.Rule = "(1) differential: RunFiles([f], NOTHING) == Run(string(bytes of f)) on every field but Filename, for 16 programs forcing forward scans, one-byte-back reads (line/word anchors), far-back seeks (lazy scan to EOF that fails; greedy loop over a ~1500 byte run straddling offset 4096 that backtracks) x 17 file sizes (0, 1, 2, around 2048/4096/6144/8192, 12 000, 20 000) with needles planted around every multiple of 2048, also several files (an empty one among them) in one call; (2) online monitor (hook H4): every read the engine issues to the backing store is compared with the ground-truth bytes at the offset the Reader believes it is at; re-centres forward/backward, reads spanning a 4096 boundary and reads of the last byte are counted; (3) direct driver: long random Seek/Read/ReadAt/anchor-pair histories on files.ReaderFromFile vs ReaderFromString vs the bytes, offsets biased to 0, window edges, size-1, size. Non-trivial = engine case with >= 1 match and >= 1 window re-centre, or reader history with >= 1 backward re-centre; distinct by (program, size, content seed)."
+	r.Rule = "(1) differential: RunFiles([f], NOTHING) == Run(string(bytes of f)) on every field but Filename, for 16 programs forcing forward scans, one-byte-back reads (line/word anchors), far-back seeks (lazy scan to EOF that fails; greedy loop over a ~1500 byte run straddling offset 4096 that backtracks) x 17 file sizes (0, 1, 2, around 2048/4096/6144/8192, 12 000, 20 000) with needles planted around every multiple of 2048, also several files (an empty one among them) in one call, and sessions in which the same path is rewritten with different bytes of the same size and searched again within one process; (2) online monitor (hook H4): every read the engine issues to the backing store is compared with the ground-truth bytes at the offset the Reader believes it is at; re-centres forward/backward, reads spanning a 4096 boundary and reads of the last byte are counted; (3) direct driver: long random Seek/Read/ReadAt/anchor-pair histories on files.ReaderFromFile vs ReaderFromString vs the bytes, offsets biased to 0, window edges, size-1, size. Non-trivial = engine case with >= 1 match and >= 1 window re-centre, or reader history with >= 1 backward re-centre; distinct by (program, size, content seed)."
 	r.Assumptions = []string{"the online read monitor trusts only the bytes the harness itself wrote to the file"}
 	dir := filepath.Join(r.WorkDir, "c07")
 	os.MkdirAll(dir, 0o755)
@@ -230,6 +230,66 @@ func C07(r *drv.Run) {
 			}
 		}}
 	})
+	// sessions: the SAME path is rewritten with different bytes of the same size and searched again in one
+	// process: nothing read for an earlier open of that path may be served to a later one
+	sessProgs := []string{c07Programs[0], c07Programs[1], c07Programs[6], c07Programs[7], c07Programs[10]}
+	nsess := 24
+	if !quick(r) {
+		nsess = 400
+	}
+	r.Exec(nsess, drv.ExecOpts{Batch: 4}, func(i int) *drv.Item {
+		rng := gen.Derive(r.Seed, "C07session", i)
+		sdir := filepath.Join(dir, fmt.Sprintf("sess%d", i))
+		os.MkdirAll(sdir, 0o755)
+		size := []int{60, 900, 3000, 4096, 5000, 9000}[rng.Intn(6)]
+		var steps []wire.Step
+		for k := 0; k < 3+rng.Intn(3); k++ {
+			content := c07Content(gen.Derive(r.Seed, "C07sessfile", i*100+k), size)
+			// make the beginning differ visibly from step to step
+			copy(content, []byte(fmt.Sprintf("needleQ%d <tag %c> \nnew", k, 'a'+byte(k))))
+			name := []string{"s.txt", "s.txt", "t.txt"}[rng.Intn(3)]
+			steps = append(steps, wire.Step{Write: map[string][]byte{name: content}, Src: []byte(sessProgs[rng.Intn(len(sessProgs))]), Files: []string{name}, Mode: "NOTHING", Text: content, WantMatches: true})
+		}
+		c := wire.Case{Op: "session", Dir: sdir, Steps: steps}
+		return &drv.Item{Case: c, Check: func(res *wire.Result) {
+			defer os.RemoveAll(sdir)
+			r.Eval(1)
+			if res.Died || res.Panic != nil {
+				msg, frame := firstLines(res.Stderr, 3), ""
+				if res.Panic != nil {
+					msg, frame = res.Panic.Msg, res.Panic.Frame
+				}
+				r.Violate(&drv.Violation{Sig: "session-crashed:" + frame, Panic: msg, Frame: frame, Case: &wire.Case{Op: "session", Dir: sdir}})
+				return
+			}
+			if len(res.StepResults) != len(steps) {
+				r.Inconclusive("session: short result")
+				return
+			}
+			for k, sr := range res.StepResults {
+				if sr.CompileErr != "" {
+					r.Inconclusive("session program rejected")
+					return
+				}
+				if sr.Panic != nil {
+					r.Violate(&drv.Violation{Sig: "runfiles-panic:" + sr.Panic.Frame, Panic: sr.Panic.Msg, Frame: sr.Panic.Frame, Src: string(steps[k].Src), Detail: map[string]any{"step": k, "size": size}})
+					return
+				}
+				a := append([]wire.Match{}, sr.Matches...)
+				for q := range a {
+					a[q].File = "text"
+				}
+				if matchesJSON(a) != matchesJSON(sr.StringMatches) {
+					r.Violate(&drv.Violation{Sig: "reopened-path-result-differs-from-string-result", Src: string(steps[k].Src),
+						Detail: map[string]any{"step": k, "of": len(steps), "file_size": size, "file_matches": len(a), "string_matches": len(sr.StringMatches),
+							"note": "the same path had been rewritten with different bytes of the same size before this step"}})
+					return
+				}
+				r.Count("session_steps_verified", 1)
+			}
+			r.Nontrivial(fmt.Sprintf("session|%d", i))
+		}}
+	})
 	// direct reader histories
 	r.Exec(len(files)*2, drv.ExecOpts{Batch: 3}, func(i int) *drv.Item {
 		f := files[i/2]
@@ -258,7 +318,7 @@ func C07(r *drv.Run) {
 		}}
 	})
 	if r.NViolations() == 0 {
-		for _, k := range []string{"refill_backward", "refill_forward", "reads_spanning_4096_boundary", "reads_of_last_byte", "reader_refill_back", "reader_nonempty", "reader_anchor_pair"} {
+		for _, k := range []string{"session_steps_verified", "refill_backward", "refill_forward", "reads_spanning_4096_boundary", "reads_of_last_byte", "reader_refill_back", "reader_nonempty", "reader_anchor_pair"} {
 			if r.Counter(k) == 0 {
 				r.Inconclusive("coverage floor: " + k + " = 0")
 			}
